@@ -345,6 +345,15 @@ func c08Sweeps(tier string) []interface{} {
 	}
 	// a kernel holding 50 realistic rule messages (audit_rule_data layout, every buflen 0..9 x tail 0..4 bytes)
 	jobs = append(jobs, Job{Kind: "c08", Histories: allHistories([]int{1, 4}, 1), NRules: 201, Bound: 1})
+	// a transport whose every Receive takes (virtual) time - 130 ms, 1 s, 1 min - under transient failures within
+	// the tolerated budget, and transports that rotate between 2 / 3 receive buffers
+	for _, ms := range []int{130, 1000, 60000} {
+		jobs = append(jobs, Job{Kind: "c08", Histories: single, NRules: 2, Bound: 2, Shapes: []ksim.Shape{{RecvLatencyMs: ms}}})
+	}
+	for _, k := range []int{2, 3} {
+		jobs = append(jobs, Job{Kind: "c08", Histories: allHistories([]int{0, 1, 4}, 2), NRules: 5, Bound: 1, Shapes: []ksim.Shape{{Buffers: k}}})
+		jobs = append(jobs, Job{Kind: "c08", Histories: allHistories([]int{1, 4}, 1), NRules: 201, Bound: 1, Shapes: []ksim.Shape{{Buffers: k}}})
+	}
 	// extended acknowledgements (capped and uncapped) carrying a reason string, for verdict 0 and for errors
 	for _, x := range []int{1, 2} {
 		var sh []ksim.Shape
@@ -547,6 +556,7 @@ func checkC08(tier string) int {
 			}
 		}
 	}
+	stackPass(run, "C08")
 	c08Concurrent(run)
 	run.Set("histories", len(hs)*3)
 	run.Set("deviation_bound_completed", bound)
